@@ -9,8 +9,12 @@ xm_c17: replays xsl:number requests on the Lean model and on the Lean specificat
   num <s|m|a> <count bits|-> <count bits for the specification|=> <from bits|-> <fmt hex|-> <gsep hex|-> <gsize|-> <visited node>…
         -> one entry per visit:  <formatted hex | !err>|<model list>|<spec list>|<flags>
            flags: h = answer differs from the empty-cache answer, - = none
+  attrs <owner element of attribute 0> <of attribute 1> …     -> ok            (attribute j is node number size + j)
+  numa <s|m|a> <count bits|-> <from bits|-> <visited node>…   -> per visit: <model list>|<spec list>   (document with attribute nodes)
+  lv <0|1|2>                                                  -> ok            (letter-value for the following val requests)
   fmt <fmt hex|-> <gsep hex|-> <gsize|-> <number>…          -> formatted hex | !err        (formatNumberList)
   val <fmt hex|-> <gsep hex|-> <gsize|-> <integer>           -> formatted hex | !err        (value= path)
+  valq <fmt hex|-> <gsep hex|-> <gsize|-> <num> <den>        -> formatted hex | !err | !num2str | !undefined-cast   (value = num/den)
   dec <fmt hex|-> <gsep hex|-> <gsize|-> <string hex>        -> a.b.c | none                 (decodeList)
 -/
 open XalanModel.C17
@@ -20,12 +24,15 @@ namespace Driver.C17
 structure St where
   parents : Array Int := #[]
   cls : Array Nat := #[]
+  lv : Nat := 0                  -- letter-value for the following val / valq / fmt requests (1 = alphabetic)
+  owners : Array Nat := #[]      -- attribute j (node number size + j) belongs to element owners[j]
 
 /-- ASCII part of `isXMLLetterOrDigit` (the generator only emits characters for which the XML 1.0
 Letter/Digit classes are known: ASCII, plus a few listed non-letters) -/
 def alnum (c : Nat) : Bool :=
   (48 ≤ c && c ≤ 57) || (65 ≤ c && c ≤ 90) || (97 ≤ c && c ≤ 122) ||
-  c == 0xE9 || c == 0x3A9        -- é, Ω are XML letters (used by the generator as "strange" alnum characters)
+  c == 0xE9 || c == 0x3A9 ||     -- é, Ω are XML letters (used by the generator as "strange" alnum characters)
+  (0x3B1 ≤ c && c ≤ 0x3C9)       -- Greek small letters α … ω (XML BaseChar): the Greek numbering token and its output
 
 /-- the model's `Doc.ofParents` (the document the theorems are about: `Doc.ofParents_closed`, `WF` checked per
 document), with its three navigation functions tabulated once per document -/
@@ -48,11 +55,16 @@ def showList (l : List Nat) : String :=
 def parseStr (s : String) : Option (List Nat) := if s = "-" then some [] else Driver.unitsOfHex s
 
 def mkGrouping (gsep gsize : String) : Option Grouping :=
-  -- getNumberFormatter: grouping is used iff both attributes are non-empty
-  if gsep = "-" ∨ gsize = "-" then some {} else
-  match Driver.unitsOfHex gsep, gsize.toNat? with
-  | some sp, some k => some { used := true, sep := sp, size := k }
-  | _, _ => none
+  -- getNumberFormatter: grouping is used iff both attributes are non-empty; a separator longer than one character
+  -- is an error as soon as a decimal token is formatted
+  let sp? : Option Str := if gsep = "-" then some [] else Driver.unitsOfHex gsep
+  match sp? with
+  | none => none
+  | some sp =>
+    if gsep = "-" ∨ gsize = "-" then some { rawSepLen := sp.length } else
+    match gsize.toNat? with
+    | some k => some { used := true, sep := sp, size := k, rawSepLen := sp.length }
+    | none => none
 
 def showOut (r : Option Str) : String :=
   match r with
@@ -87,11 +99,36 @@ def numStep (s : St) (level count scount from_ fmt gsep gsize : String) (visits 
     " ".intercalate (go [] vs)
   | _, _, _, _ => "bad"
 
+/-- `numa`: like `num` (default format), on the document with its attribute nodes; visits are node numbers, the
+attributes being `size + j`; masks and classes cover `size + #attributes` numbers -/
+def numaStep (s : St) (level count from_ : String) (visits : List String) : String :=
+  let d := (mkDoc s.parents).withAttrs s.owners.toList
+  let lv? : Option Level := if level = "s" then some .single else if level = "m" then some .multiple
+    else if level = "a" then some .any else none
+  match lv?, visits.mapM String.toNat? with
+  | some lv, some vs =>
+    let cls (i : Nat) : Nat := s.cls.getD i 0
+    let countAt : Nat → Nat → Bool := match bits count with
+      | some f => fun _ n => f n
+      | none => fun pos n => cls pos == cls n
+    let cfg : NumCfg := { level := lv, countAt := countAt, fromP := bits from_ }
+    let rec go (cs : List Counter) : List Nat → List String
+      | [] => []
+      | v :: rest =>
+        let r := getCountListA XalanModel.Generated.C17.anyWalkUsesDomParent XalanModel.Generated.C17.anyZeroPrintsNothing d cfg after cs v
+        let spec := if v < d.size then numberSpec d lv (countAt v) cfg.fromP v
+          else match lv with
+            | .any => specAnyAttr (countAt v) cfg.fromP v ((d.parent v).getD 0)
+            | l => numberSpec d l (countAt v) cfg.fromP v
+        s!"{showList r.2}|{showList spec}" :: go r.1 rest
+    " ".intercalate (go [] vs)
+  | _, _ => "bad"
+
 def step (s : St) : List String → St × String
   | "doc" :: ps =>
     match ps.mapM String.toInt? with
     | some l =>
-      let s' := { s with parents := l.toArray, cls := #[] }
+      let s' := { s with parents := l.toArray, cls := #[], owners := #[] }
       let d := mkDoc s'.parents
       (s', s!"ok n={d.size} wf={if decide d.WF then 1 else 0}")
     | none => (s, "bad")
@@ -99,6 +136,16 @@ def step (s : St) : List String → St × String
     match cs.mapM String.toNat? with
     | some l => ({ s with cls := l.toArray }, "ok")
     | none => (s, "bad")
+  | ["lv", v] =>
+    match v.toNat? with
+    | some k => ({ s with lv := k }, "ok")
+    | none => (s, "bad")
+  | "attrs" :: os =>
+    match os.mapM String.toNat? with
+    | some l => ({ s with owners := l.toArray }, "ok")
+    | none => (s, "bad")
+  | "numa" :: level :: count :: from_ :: visits =>
+    (s, numaStep s level count from_ visits)
   | "num" :: level :: count :: scount :: from_ :: fmt :: gsep :: gsize :: visits =>
     (s, numStep s level count (if scount = "=" then "-" else scount) from_ fmt gsep gsize visits)
   | "fmt" :: fmt :: gsep :: gsize :: ns =>
@@ -107,8 +154,17 @@ def step (s : St) : List String → St × String
     | _, _, _ => (s, "bad")
   | ["val", fmt, gsep, gsize, v] =>
     match parseStr fmt, mkGrouping gsep gsize, v.toInt? with
-    | some f, some g, some x => (s, showOut (formatValue alnum g f x))
+    | some f, some g, some x => (s, showOut (formatValue alnum { g with letterValue := s.lv } f x))
     | _, _, _ => (s, "bad")
+  | ["valq", fmt, gsep, gsize, num, den] =>
+    match parseStr fmt, mkGrouping gsep gsize, num.toInt?, den.toNat? with
+    | some f, some g, some a, some b =>
+      if b = 0 then (s, "bad") else
+      (s, match formatValueQ XalanModel.Generated.C17.valueRangeGuard alnum g f a b with
+          | .viaNumberToString => "!num2str"
+          | .castUndefined => "!undefined-cast"
+          | .formatted r => showOut r)
+    | _, _, _, _ => (s, "bad")
   | ["dec", fmt, gsep, gsize, str] =>
     match parseStr fmt, mkGrouping gsep gsize, parseStr str with
     | some f, some g, some o =>
